@@ -7,7 +7,10 @@
 (*   [none |-> FALSE, gen, phase, leader, mem : member -> [topics, sess, hb, jg], asg : member -> SUBSET TP, *)
 (*    rebT, deadline].   Times are integer ticks.  Error codes are the Kafka wire codes.                   *)
 EXTENDS Integers, FiniteSets
-CONSTANTS e,          \* the step: [ev, c, gen (generation sent), code (reply), + rgen/leader/list/sub (Join), asg (Sync)]
+CONSTANTS e,          \* the step: [ev, c, gen (generation sent), code (reply), pending, + rgen/leader/list/sub (Join), asg (Sync)]
+                      \*   pending = TRUE: the step's store write is still in flight (only possible when a design does store I/O
+                      \*   outside the coordinator lock; such a step is followed later by a "Release" step when the write lands;
+                      \*   a request parked *before* its decision shows up as "Hold" and its reply as a later ordinary step)
           pre,        \* group the step acted on: in-memory group, or what the coordinator restores from the store
           post,       \* same after the step
           mem,        \* in-memory group after the step ([none |-> TRUE] when not loaded)
@@ -18,6 +21,7 @@ CONSTANTS e,          \* the step: [ev, c, gen (generation sent), code (reply), 
                       \*   any JoinGroup, or a Heartbeat of a known member carrying the current generation
           sessOf,     \* member of pre -> session timeout that applies to it
           gstart,     \* time at which the current generation was first seen
+          fgen,       \* generation in which a coordinator failover happened and which is still current (-1 = none)
           offsPre, offsPost,  \* committed offsets before / after the step
           AllMembers, AllTP, RebT
 
@@ -63,8 +67,14 @@ C14_SyncAfterLeader == (e.ev = "Sync" /\ ~Stale /\ pre.phase = "stable") => e.co
 \* ------------------------------------------------------------------ C15
 Proj(g) == IF g.none THEN <<"none">>
            ELSE <<g.gen, g.phase, g.leader, [m \in Mem(g) |-> g.mem[m].topics], [m \in Mem(g) |-> g.asg[m]]>>
-C15_RestoreEqual == ~mem.none => (~rst.none /\ Proj(rst) = Proj(mem))
-C15_KeepWorking == (IsReq /\ restored /\ ~Stale) => e.code \notin {ILLEGAL_GENERATION, UNKNOWN_MEMBER_ID}
+\* at every quiescent point (no store write in flight) a failover would restore what is in memory
+C15_RestoreEqual == (~mem.none /\ ~e.pending) => (~rst.none /\ Proj(rst) = Proj(mem))
+\* the first request after a failover is not fenced ...
+C15_NotFenced == (IsReq /\ restored /\ ~Stale) => e.code \notin {ILLEGAL_GENERATION, UNKNOWN_MEMBER_ID}
+\* ... and as long as the generation in which the failover happened is current, its members keep working without
+\* rejoining: in a stable group every request of a member succeeds and SyncGroup returns the persisted assignment
+C15_KeepWorking == (IsReq /\ ~Stale /\ fgen = pre.gen /\ pre.phase = "stable") =>
+                      (e.code = NONE /\ (e.ev = "Sync" => e.asg = pre.asg[e.c]))
 
 \* ------------------------------------------------------------------ C43
 Removed == Mem(pre) \ Mem(post)
@@ -78,6 +88,9 @@ C43_NoOverdue ==
   (e.ev = "Tick" /\ ~mem.none /\ ~pre.none) =>
      \A m \in Mem(mem) \cap Mem(pre) :
         /\ ~(now - alive[m] > sessOf[m])
+        \* nobody who had missed the rebalance deadline before this cleanup is still there ...
+        /\ ~(pre.deadline # 0 /\ now >= pre.deadline /\ pre.mem[m].jg # pre.gen)
+        \* ... nor anybody who has missed the deadline that holds after it
         /\ ~(mem.deadline # 0 /\ now >= mem.deadline /\ mem.mem[m].jg # mem.gen)
 C43_Rebalances == (e.ev = "Tick" /\ Removed # {} /\ ~post.none) => (post.gen > pre.gen /\ post.phase = "preparing_rebalance")
 
@@ -85,4 +98,5 @@ C43_Rebalances == (e.ev = "Tick" /\ Removed # {} /\ ~post.none) => (post.gen > p
 Refreshes(m) == e.c = m /\ (e.ev = "Join" \/ (e.ev = "Heartbeat" /\ e.code \in {NONE, REBALANCE_IN_PROGRESS}))
 NextAlive == [m \in AllMembers |-> IF m \notin Mem(post) THEN -1 ELSE IF Refreshes(m) THEN now ELSE alive[m]]
 NextGstart == IF post.none THEN 0 ELSE IF pre.none \/ post.gen # pre.gen THEN now ELSE gstart
+NextFgen == IF post.none THEN -1 ELSE IF e.ev = "Failover" /\ ~pre.none THEN pre.gen ELSE IF fgen # post.gen THEN -1 ELSE fgen
 ====
